@@ -28,7 +28,7 @@ def scenario(ctx, i):
     D = int(r.integers(1, 4 if ctx.tier == "quick" else 6))
     N = int(r.integers(max(2 * K, 3), 30 if ctx.tier == "quick" else 120))
     centers = r.normal(0, 4, size=(K, D))
-    x = gen.maybe_int(r, centers[r.integers(0, K, N)] + r.normal(size=(N, D)))
+    x = gen.maybe_int(r, centers[r.integers(0, K, N)] + r.normal(size=(N, D)), floats=False)
     cent = x[r.choice(N, K, replace=False)] + 0.1 * r.normal(size=(K, D))
     if r.random() < 0.25:  # initial centroids handed over as an integer-typed array (legal: any array-like of shape (K, D))
         ci = np.rint(cent).astype(np.int64)
